@@ -36,6 +36,12 @@ CLAIMED = {
  "C19": dict(engine="dv", design="4 C19", technique="TLA+ spec (DV: installer Desired/Replay + replicated prefix log with snapshots) model-checked by TLC; real routers' register/unregister streams and reconstructed prefix sets validated by TLC",
    text="TLC checks that the prefix log design replicates (LogReplicates, CaughtUpEqual, SnapshotSound) for all op/learn/fetch interleavings with a scaled snapshot threshold, and that fibUpdate reaches Desired; on real routers the emitted command stream is replayed into a route map that must equal the from-scratch Desired(r) after every table change, and after every sync the peer must have caught up with exactly the publisher's announced set (incl. first fetch by snapshot and 130-operation bursts).",
    note="The harness relays the peer's real fetch Interests to the publisher's real handler; publisher restarts are not modelled. " + TB),
+ "C10": dict(engine="link", design="4 C10", technique="TLA+ spec (LpLink: TLV wire arithmetic, sender frame list, reassembly store) model-checked by TLC; real NDNLPLinkService sends and frame arrivals validated by TLC",
+   text="TLC checks SendOK for the coded sender over a boundary universe of (length, MTU, header fields) and the receiver state machine over every interleaving of three concurrent messages plus adversarial frames; every frame the real link service emits in a size x MTU x header sweep is decoded and judged by SendOK, and every frame arrival at a real receiving link service by RxOK plus byte/token/mark identity.",
+   note="SendOK constrains any sender (it does not require the code's split sizes); 'fits in one frame' uses the 64-byte tolerance of DESIGN C10. " + TB),
+ "C11": dict(engine="link", design="4 C11", technique="TLA+ spec (StreamFraming: buffer of stream offsets, parse loop, compaction) model-checked by TLC for scaled constants; reads of the real readTlvStream and of the application StreamFace validated by TLC",
+   text="TLC explores every stream of up to 4-5 blocks and every partition into reads on the implementation-shaped model (frames are blocks, unread region is the stream slice, no error, all delivered at EOF); the real readers are driven with streams many times the buffer and adversarial chunkings, each read judged by ReadOK.",
+   note="Scaled constants in the exhaustive model (packet 4, buffer 12); real constants in traces. " + TB),
 }
 NOT_YET = "check not yet built in this commit (work in progress; see DESIGN.md section 4)"
 NA = {}
